@@ -517,8 +517,8 @@ VARIANTS = [
     Variant("worker-gets-empty-preserve", "FIRE", "main", "                    (filename, filename_preserve[filename], safe)", "                    (filename, frozenset(), safe)", "R8.1"),
     Variant("fix-variable-names-ignores-preserve", "FIRE", "fixes", "            if node.id != substitute and node.id not in preserve | names_left_alone:", "            if node.id != substitute and node.id not in names_left_alone:", "R8.2"),
     Variant("attribute-names-only-for-imports", "FIRE", "main",
-            "            names.append(node.attr)\n            if isinstance(node.value, ast.Name) and node.value.id in imported_names:\n                names.append(node.value.id)",
-            "            if isinstance(node.value, ast.Name) and node.value.id in imported_names:\n                names.append(node.attr)\n                names.append(node.value.id)", "R8.3"),
+            "            names.append(node.attr)\n            # obj._Engine__step is how code outside of the class Engine spells its private __step\n",
+            "            if isinstance(node.value, ast.Name) and node.value.id in imported_names:\n                names.append(node.attr)\n", "R8.3"),
     Variant("staticmethod-bare-test-removed", "FIRE", "object_oriented", "            if funcdef.name in attributes_to_preserve or funcdef.name in preserve:", "            if funcdef.name in attributes_to_preserve:", "R8.2"),
     Variant("guard-as-enclosing-if", "SILENT", "fixes",
             "                if node.id == substitute:\n                    continue\n                if node.id in preserve:\n                    continue\n                replacement = ast.Name(id=substitute)",
